@@ -17,6 +17,7 @@ Import ListNotations.
 Require Import Gram.Model.Term Gram.Model.DeBruijn Gram.Model.Eval Gram.Proofs.RewriteProofs.
 Require Import Gram.Model.Parser Gram.Model.ParserPost Gram.Spec.ScopeSpec Gram.Proofs.AlphaProofs.
 Require Import Gram.Spec.Typing Gram.Oracle.Infer Gram.Proofs.CtxProofs Gram.Proofs.WeakenProofs Gram.Proofs.WeakenInfer Gram.Proofs.RewriteTyping.
+Require Gram.Proofs.EvalEnvGroups Gram.Proofs.ReorderDefs Gram.Proofs.PGSimple Gram.Proofs.ReorderTyping.
 
 Theorem C19_if_true : forall e e', step (TIf TTrue e e') = Some e.
 Proof. exact if_true_step. Qed.
@@ -88,4 +89,47 @@ Theorem C19_named_expression_outcome : forall A e, hole_free e = true -> outcome
 Proof. exact R4_outcome. Qed.
 Check C19_named_expression_outcome : forall A e, hole_free e = true -> outcome_equiv e (named A e).
 Print Assumptions C19_named_expression_outcome.
+
+
+(* Reordering function definitions (Proofs/ReorderDefs.v): exchanging two adjacent VALUE definitions of a group - at the root
+   or anywhere inside a closed hole-free program, and any sequence of such exchanges, hence any permutation of a block of
+   function definitions - leaves the outcome unchanged: the same integer / boolean (the very same value term), the same
+   stuck reason, or both diverge. By a lockstep simulation of the reference interpreter up to a bijection of store cells,
+   transferred to the evaluator model through the agreement theorem of C02. Exchanging two COMPUTED definitions, or a
+   computed definition with a function it reaches only through another function, does change the outcome
+   (two_computed_differ, indep_prog_differ: the latter is the recorded finding D7 seen through this rewrite). *)
+Theorem C19_permuting_function_definitions_preserves_the_outcome : forall t t', EvalEnvGroups.okt' t -> ReorderDefs.swaps t t' -> ReorderDefs.obs_equiv t t'.
+Proof. exact ReorderDefs.permute_value_definitions_outcome. Qed.
+Check C19_permuting_function_definitions_preserves_the_outcome : forall t t', EvalEnvGroups.okt' t -> ReorderDefs.swaps t t' -> ReorderDefs.obs_equiv t t'.
+Print Assumptions C19_permuting_function_definitions_preserves_the_outcome.
+
+Theorem C19_swap_adjacent_function_definitions_anywhere : forall t t', EvalEnvGroups.okt' t -> ReorderDefs.swap_in t t' -> ReorderDefs.obs_equiv t t'.
+Proof. exact ReorderDefs.swap_value_definitions_anywhere. Qed.
+Check C19_swap_adjacent_function_definitions_anywhere : forall t t', EvalEnvGroups.okt' t -> ReorderDefs.swap_in t t' -> ReorderDefs.obs_equiv t t'.
+Print Assumptions C19_swap_adjacent_function_definitions_anywhere.
+
+
+(* ... and ACCEPTANCE (Proofs/ReorderTyping.v): a group and the group with two adjacent definitions exchanged are typable
+   together, for the typing rules and for the verified checker at the same fuel; with a result type that does not mention the
+   group it is the same type; for simply typed programs (`checkS`) exchanges anywhere and in any sequence keep acceptance and
+   type. In general the reported type is the group's projections substituted in the other order, which need NOT be
+   convertible with the original (NotConv.exchange_changes_type: mutually dependent computed definitions). *)
+Theorem C19_exchanging_definitions_preserves_typability : forall G i ds b, wf_offsets G ->
+  ((exists T, has_type G (TLet ds b) T) <-> (exists T, has_type G (ReorderDefs.swap_defs i (TLet ds b)) T)).
+Proof. exact ReorderTyping.swap_defs_typable_iff. Qed.
+Check C19_exchanging_definitions_preserves_typability : forall G i ds b, wf_offsets G ->
+  ((exists T, has_type G (TLet ds b) T) <-> (exists T, has_type G (ReorderDefs.swap_defs i (TLet ds b)) T)).
+Print Assumptions C19_exchanging_definitions_preserves_typability.
+
+Theorem C19_exchanging_definitions_preserves_acceptance_by_the_verified_checker : forall f G i ds b, wf_offsets G ->
+  ((exists T, infer f G (TLet ds b) = Some T) <-> (exists T, infer f G (ReorderDefs.swap_defs i (TLet ds b)) = Some T)).
+Proof. exact ReorderTyping.infer_swap_defs_accepts. Qed.
+Check C19_exchanging_definitions_preserves_acceptance_by_the_verified_checker : forall f G i ds b, wf_offsets G ->
+  ((exists T, infer f G (TLet ds b) = Some T) <-> (exists T, infer f G (ReorderDefs.swap_defs i (TLet ds b)) = Some T)).
+Print Assumptions C19_exchanging_definitions_preserves_acceptance_by_the_verified_checker.
+
+Theorem C19_exchanges_anywhere_simply_typed : forall t t', ReorderTyping.swaps_at t t' -> forall C T, PGSimple.checkS C t = Some T -> PGSimple.checkS C t' = Some T.
+Proof. exact ReorderTyping.checkS_swaps_at. Qed.
+Check C19_exchanges_anywhere_simply_typed : forall t t', ReorderTyping.swaps_at t t' -> forall C T, PGSimple.checkS C t = Some T -> PGSimple.checkS C t' = Some T.
+Print Assumptions C19_exchanges_anywhere_simply_typed.
 
